@@ -30,6 +30,52 @@ func DefaultCase(r *rand.Rand, name string, o DefaultOpts) *Case {
 	inS := decl("InnerS", Struct(F("X", Basic("int"))))
 	inT := decl("InnerT", Struct(F("X", Basic("int"))))
 	ctxD := decl("Ctx", Struct(F("ID", Basic("string"))))
+	if r.Intn(5) == 0 {
+		// container targets: a map or a slice method with default FUNC starts from FUNC's result, too
+		isMap := r.Intn(2) == 0
+		named := r.Intn(2) == 0
+		var sT, tT *Type
+		tyS, lit := "", ""
+		if isMap {
+			sT, tT = Map(Basic("string"), Named(inS)), Map(Basic("string"), Named(inT))
+			tyS, lit = "map[string]ty.InnerT", "map[string]ty.InnerT{\"d\": {X: 5}}"
+		} else {
+			sT, tT = Slice(Named(inS)), Slice(Named(inT))
+			tyS, lit = "[]ty.InnerT", "[]ty.InnerT{{X: 5}, {X: 6}}"
+		}
+		if named {
+			sT = Named(decl("SC", sT))
+			td := decl("TC", tT)
+			tT = Named(td)
+			tyS, lit = "ty.TC", "ty.TC"+lit[len(tyS):]
+		}
+		fnErr := r.Intn(3) == 0
+		ret, body := tyS, "return "+lit
+		if fnErr {
+			ret, body = "("+tyS+", error)", body+", nil"
+		}
+		conv.Files["ctor.go"] = fmt.Sprintf("package conv\n\nimport \"%s/ty\"\n\nfunc NewT() %s {\n\t%s\n}\n", c.Root, ret, body)
+		cv := &Converter{Pkg: conv, File: "conv.go", Name: "Converter", Format: o.Format, OutPkgPath: "conv/generated", OutPkgName: "generated", ImplName: "ConverterImpl",
+			Callables: map[string]string{"fn:NewT": "conv.NewT"}, GlueImports: []string{fmt.Sprintf("conv %q", c.Root+"/conv")}}
+		if o.Format == "variables" {
+			cv.OutPkgPath, cv.OutPkgName = "conv", "conv"
+			cv.Callables["fn:NewT"] = "gen.NewT"
+			cv.GlueImports = nil
+		}
+		cv.Methods = append(cv.Methods, &Method{Name: "M", Params: []Param{{Name: "source", T: sT, Role: "source"}}, Result: tT, HasErr: fnErr, Lines: []string{"default NewT"},
+			Spec: &vref.MethodSpec{Name: "M", Roles: []string{"source"}, HasErr: fnErr, Default: "fn:NewT"}})
+		nv := o.NValues
+		if nv == 0 {
+			nv = 40
+		}
+		cv.Spec = &vref.Spec{Seed: o.Seed, NValues: nv, Monitors: []string{"default"}, Funcs: []*vref.FuncSpec{{Key: "fn:NewT", Kind: "default", Roles: []string{}}}}
+		c.Convs = []*Converter{cv}
+		c.Patterns = []string{"./conv"}
+		c.Feature("shape", fmt.Sprintf("container,map=%v,named=%v", isMap, named))
+		c.Feature("fn", fmt.Sprintf("source=false,ctx=false,err=%v", fnErr))
+		c.Feature("format", o.Format)
+		return c
+	}
 	sS := Struct(F("A", Basic("int")), F("B", Basic("string")), F("L", Slice(Basic("int"))), F("P", Ptr(Basic("int"))), F("N", Named(inS)), F("M", Map(Basic("string"), Basic("int"))))
 	tS := Struct(F("A", Basic("int")), F("B", Basic("string")), F("L", Slice(Basic("int"))), F("P", Ptr(Basic("int"))), F("N", Named(inT)), F("M", Map(Basic("string"), Basic("int"))), F("Ign", Basic("string")), F("Ign2", Slice(Basic("string"))))
 	// optional inline T -> *U positions (unnamed composites) and pointer-valued maps
